@@ -49,7 +49,16 @@ func readOnce(c *chunkReader) (o readObs) {
 	start := c.pos
 	var p interface{}
 	var err error
-	panicked, msg := guard(func() { p, err = pdu.ReadPDU(c) })
+	var panicked bool
+	var msg string
+	if stallsExhausted() {
+		return readObs{Kind: "truncated", Err: fmt.Errorf("not called: calls did not return %d times in this run", maxStalls)}
+	}
+	if hung, pk, m := callWatch(func() { p, err = pdu.ReadPDU(c) }); hung {
+		return readObs{Kind: "panic", Msg: neverReturns + m, Consumed: 0}
+	} else {
+		panicked, msg = pk, m
+	}
 	o.Consumed = c.pos - start
 	o.Err = err
 	switch {
